@@ -10,6 +10,7 @@ import (
 	"github.com/cbeuw/Cloak/internal/common"
 	"github.com/cbeuw/Cloak/internal/vnet"
 	"github.com/cbeuw/Cloak/internal/vrt"
+	"github.com/cbeuw/Cloak/internal/vrt/time"
 	"github.com/cbeuw/Cloak/internal/vx"
 )
 
@@ -88,5 +89,45 @@ func init() {
 		rep := vx.RunSched(c, sc, sigOf("C11"))
 		rep.Notes = append(rep.Notes, fmt.Sprintf("injected record lengths %v x fills zeros/ones/lcg", lens))
 		return rep
+	}})
+}
+
+// C11 driver: "dropped without effect" includes time. A session without open streams closes itself on
+// its inactivity timer; records that fail authentication, injected every `every` seconds, do not keep
+// it alive: after 2.5 timeouts it is closed, exactly as without them.
+func init() {
+	vx.Register(&vx.Scenario{Name: "mux.junkidle", Prop: "C11", Run: func(c *vx.Ctx) *vx.Report {
+		method := methodOf(c.P("method", "aes-256-gcm"))
+		sc := &vrt.Scenario{
+			Opt:      vrt.Options{Delay: true, HorizonNs: int64(200 * time.Second)},
+			Classify: deadlockIs("no-deadlock"),
+			Main: func() {
+				timeout := 10 * time.Second
+				every := time.Duration(c.PI("every", 4)) * time.Second
+				o, _ := MakeObfuscator(method, rigKey)
+				net := vnet.New()
+				a, b := net.Pair("idle", false)
+				sesh := MakeSession(7, SessionConfig{Obfuscator: o, Valve: UNLIMITED_VALVE, MsgOnWireSizeLimit: prodLimit, InactivityTimeout: timeout})
+				sesh.AddConnection(common.NewTLSConn(b))
+				junk := make([]byte, 200)
+				for i := range junk {
+					junk[i] = byte(i*37 + 11)
+				}
+				rec := append([]byte{0x17, 0x03, 0x03, 0, byte(len(junk))}, junk...)
+				for t := time.Duration(0); t < 25*time.Second; t += every {
+					time.Sleep(every)
+					if sesh.IsClosed() {
+						break
+					}
+					a.Write(rec)
+				}
+				quiesce()
+				if !sesh.IsClosed() {
+					vrt.Fail("garbage-without-effect", "a session with no stream and a %v inactivity timeout is still open after %v because records that fail authentication arrive every %v", timeout, time.Duration(vrt.NowNs()), every)
+				}
+				vrt.Observe("closed")
+			},
+		}
+		return vx.RunSched(c, sc, sigOf("C11"))
 	}})
 }
